@@ -16,6 +16,7 @@ CONSTANTS
   Weak_NoCentre = FALSE
   Weak_TieHighAddr = FALSE
   Weak_FloorDiv = FALSE
+  Weak_RoundSkipSingleIncrement = FALSE
 INIT CaseInit
 NEXT CaseNext
 INVARIANTS RotationMatchesRef Fair ComposesWhenFresh Proportional RotationWindow
